@@ -168,8 +168,10 @@ def decision(ctx, repo):
         if isinstance(n.ast, ast.Assign) and isinstance(n.ast.targets[0], ast.Name):
             defs.setdefault(n.ast.targets[0].id, []).append(n)
     ok = len(args) == 3 and args[0] == "self" and args[1] in defs and args[2] in defs
-    ctx.ob("R3", f"{key}::on_change-arguments", ok, f"{fi.qual}: _on_change called with {args}, expected (self, <old>, <new>)", loc(fi, N.ast))
     if not ok:
+        # not the audited spelling (values bound by tuple assignment, passed through a helper ...): what the observers
+        # receive, and when, is decided by the interpreted item x block-pair scenarios (decision_model)
+        ctx.note(f"{fi.qual}: `_on_change({', '.join(args)})` is not (self, <single-assignment local>, <single-assignment local>) - decided by the interpreted scenarios only")
         return
     oldv, newv = args[1], args[2]
     od, nd = defs[oldv], defs[newv]
@@ -347,7 +349,16 @@ def observers(ctx, repo):
                sample={"rule": "R5", "script": [list(map(str, s)) for s in script], "calls": [str(g) for g in got]})
     # who may write the list (the attribute __init__ binds to a list display)
     init = repo.method("Observable", "__init__")
-    lists = [t.attr for n in ast.walk(init.node) if isinstance(n, (ast.Assign, ast.AnnAssign)) and isinstance(getattr(n, "value", None), ast.List)
+    def _is_list_value(v):
+        if isinstance(v, ast.List):
+            return True
+        if isinstance(v, ast.Call) and isinstance(v.func, ast.Name):
+            if v.func.id == "list":
+                return True
+            cs_ = repo.classes().get(v.func.id, [])
+            return len(cs_) == 1 and any(b_ == "list" for k_ in repo.mro(cs_[0]) for b_ in k_.bases)   # a list subclass of the repository
+        return False
+    lists = [t.attr for n in ast.walk(init.node) if isinstance(n, (ast.Assign, ast.AnnAssign)) and _is_list_value(getattr(n, "value", None))
              for t in (n.targets if isinstance(n, ast.Assign) else [n.target]) if isinstance(t, ast.Attribute)]
     if len(lists) != 1:
         ctx.error(f"Observable.__init__: observer list not identified by role ({lists})")
@@ -407,6 +418,53 @@ def temperature_notifications(ctx, repo, rule):
     ctx.floor(rule, "temperature block pairs interpreted", n, 5)
 
 
+def decision_model(ctx, repo, rule):
+    """R3 by interpretation: a byte item, a word item and a 2-bit label item are built by their own constructors on a model
+    structure, an observer is registered through watch(), and status_block_changed(0, n, previous) is interpreted on
+    block pairs: item bytes equal (other bytes differ) -> silent; item bytes differ -> exactly one notification
+    (sender, value decoded from the previous block, value decoded from the current block); for the label item also a
+    change of the OTHER bits of its byte -> silent."""
+    from ..absint import ClassRef, Interp, Native, Obj, PyRaise, Undecided
+    fi = repo.method("GeckoStructAccessor", "status_block_changed")
+
+    def blk(**at):
+        b = bytearray(64)
+        for k, v in at.items():
+            b[int(k[1:])] = v
+        return bytes(b)
+    items = (("byte", "GeckoByteStructAccessor", ["B", 10, "ALL"], lambda b: b[10]),
+             ("word", "GeckoWordStructAccessor", ["W", 20, "ALL"], lambda b: b[20] * 256 + b[21]),
+             ("label", "GeckoEnumStructAccessor", ["E", 30, 2, ["OFF", "LO", "HI", "MAX"], None, 4, "ALL"], lambda b: ["OFF", "LO", "HI", "MAX"][(b[30] >> 2) & 3]))
+    pairs = (("unchanged::other-bytes-differ", blk(p10=7, p20=1, p21=2, p30=0b0100, p5=9), blk(p10=7, p20=1, p21=2, p30=0b0100, p5=1)),
+             ("changed", blk(p10=7, p20=1, p21=2, p30=0b0100), blk(p10=8, p20=1, p21=3, p30=0b1000)),
+             ("changed-to-zero", blk(p10=7, p20=1, p21=2, p30=0b0100), blk()),
+             ("other-bits-of-the-byte-differ", blk(p10=7, p20=1, p21=2, p30=0b0100), blk(p10=7, p20=1, p21=2, p30=0b0111)))
+    n = 0
+    for kind, cname, args, decode in items:
+        for key, prev, new in pairs:
+            it = Interp(repo, max_depth=12)
+            calls = []
+            st = Obj(None, {"status_block": new, "accessors": {}}, name="struct")
+            try:
+                acc = it.apply(ClassRef(repo.cls(cname)), [st] + list(args), {})
+                it.call(repo.method(cname, "watch"), acc, [Native(lambda a, k: calls.append(tuple(a)), "observer")])
+                it.steps = 0
+                it.call(repo.method(cname, "status_block_changed"), acc, [0, 64, prev])
+            except PyRaise as e:
+                calls.append(("raises", e.what))
+            except Undecided as e:
+                raise AnalysisError(f"{cname}.status_block_changed on the model structure: {e}")
+            old, cur = decode(prev), decode(new)
+            want = [] if old == cur else [(acc, old, cur)]
+            n += 1
+            ok = len(calls) == len(want) and all(len(c) == 3 and c[0] is w[0] and c[1] == w[1] and c[2] == w[2] for c, w in zip(calls, want))
+            ctx.ob(rule, f"decision::{kind}::{key}", ok,
+                   f"{kind} item, {key.replace('::', ', ')}: observers got {[tuple(map(str, c[1:])) for c in calls]}, expected {[tuple(map(str, w[1:])) for w in want]} "
+                   f"(one notification with the values decoded from the previous and the current block iff they differ)", fi.loc,
+                   sample={"rule": rule, "item": kind, "case": key, "notifications": len(calls)})
+    ctx.floor(rule, "item x block-pair notifications interpreted", n, 12)
+
+
 def check(ctx):
     repo = Repo()
     ctx.rule("R1", "swap-before-notify in both replace_status_block_segment: previous block captured, new block = exact splice, assignment dominates the notification loop, no suspension")
@@ -425,6 +483,7 @@ def check(ctx):
     temperature_notifications(ctx, repo, "R7")
     for c in STRUCT_CLASSES:
         swap_then_notify(ctx, repo, c)
+    decision_model(ctx, repo, "R3")
     decision(ctx, repo)
     intersection_filter(ctx, repo)
     observers(ctx, repo)
